@@ -20,6 +20,13 @@ Round 4 adds: the repaired per-cross product (section 2a, D70), the closed form 
 (`family_group_metadata`), "all doubled haploids of one mating are gametes of ONE line" (`dh_siblings_share_line`) and the
 witness that this is more than the row-by-row Spec can see (`spec_complete_siblings_counterexample`).
 
+Round 5 adds (section 2d): histories of `mate()` calls on one protocol object (`Mating.mateSeq`; `history_calls`: call k is
+the single call started from the constructor's counters advanced by everything produced before, so every theorem of
+sections 2 - 2c holds of every call of a history; `history_family_labels`), and the dtype of the family labels
+(`Mating.labelsInDtype`: int64 labels are the numbers `fc + i` up to 2^63, `family_labels_int64_exact_partial`; a variant that
+builds them in the dtype of the PARENTS' labels is wrong at the limit of that dtype,
+`family_labels_parental_dtype_counterexample`).  Helper lemmas: PybropsModel/Lemmas/MatingHistory.lean.
+
 Conventions.  `mate … = .ok out` says the model accepts the input (rectangular diploid matrix,
 xconfig of the protocol's width, count arrays of length ncross, every selected index inside the
 matrix, draws of the shapes the code requests); the examples show it is met by concrete inputs for
@@ -46,6 +53,7 @@ import PybropsModel.Lemmas.CountProduct
 import PybropsModel.Lemmas.MatingGroupMeta
 import PybropsModel.Lemmas.Siblings
 import PybropsModel.Lemmas.SpecCompleteSib
+import PybropsModel.Lemmas.MatingHistory
 set_option autoImplicit false
 set_option linter.unusedSectionVars false
 
@@ -463,6 +471,70 @@ example : (MateHeap.generateH (α := Int) (ρ := Int) [.other, .geno [([1, 2], [
 example : ¬ MateHeap.Ext (α := Int) [.geno [([1], [2])]] ([MateHeap.Cell.geno [([2], [2])]]) := by
   rintro ⟨ext, he⟩
   simp at he
+
+/-! ## 2d. Histories on one protocol object; the dtype of the family labels (round 5) -/
+
+section history
+variable {α ρ : Type} [Preorder ρ] [DecidableLT ρ] [Zero ρ]
+
+/-- **Histories.**  `k` successive `mate()` calls on ONE protocol object (`Mating.mateSeq`: the object keeps the two
+    counters and nothing else): there is one result per call, and call `k` IS the single call of sections 2 - 2c started
+    from the constructor's counters advanced by everything the earlier calls produced — `progeny_counter + Σ progeny`,
+    `family_counter + Σ crosses` — for histories of every length and every counter value.  So every theorem above
+    holds of every call of a history (e.g. `history_family_labels`). -/
+theorem history_calls {P : Proto} {pc fc : Nat} {cs : List (Call α ρ)} {os : List (Out α)}
+    (h : mateSeq P pc fc cs = .ok os) :
+    os.length = cs.length ∧
+    ∀ (k : Nat) (c : Call α ρ), cs[k]? = some c → ∃ o, os[k]? = some o ∧
+      mate P c.pop c.xc c.nmating c.nprogeny c.nself c.xo
+        (pc + ((os.take k).map (fun o => o.rows.length)).sum)
+        (fc + ((cs.take k).map (fun c => c.xc.length)).sum) c.draws = .ok o :=
+  ⟨mateSeq_length h, mateSeq_call h⟩
+
+/-- The family labels of call `k` of a history: `family_counter₀ + (crosses of the earlier calls) + i`, repeated
+    `nmating_i · nprogeny_i` times, in configuration order — however far the counter has grown. -/
+theorem history_family_labels {P : Proto} {pc fc : Nat} {cs : List (Call α ρ)} {os : List (Out α)}
+    (h : mateSeq P pc fc cs = .ok os) (k : Nat) (c : Call α ρ) (hk : cs[k]? = some c) :
+    ∃ o nm np, os[k]? = some o ∧ c.nmating.expand c.xc.length = .ok nm ∧ c.nprogeny.expand c.xc.length = .ok np ∧
+      o.rows.map Row.grp = Np.repeatEach (List.zipWith (· * ·) nm np)
+        (Np.arange (fc + ((cs.take k).map (fun c => c.xc.length)).sum) c.xc.length) ∧
+      o.fc = fc + ((cs.take k).map (fun c => c.xc.length)).sum + c.xc.length := by
+  obtain ⟨o, ho, hm⟩ := mateSeq_call h k c hk
+  obtain ⟨nm, np, h1, h2, hg⟩ := family_labels hm
+  exact ⟨o, nm, np, ho, h1, h2, hg, (counters_advance hm).2⟩
+
+/-- two cycles on one two-way object started at `family_counter = 126`: families 126, 127, then 128, 129 -/
+example : (match mateSeq (ρ := Int) .twoWay 5 126
+      [⟨demoPop, [[0, 1], [2, 3]], .scalar 1, .scalar 1, 0, demoXo, [demoDraw 2, demoDraw 2]⟩,
+       ⟨demoPop, [[3, 0], [1, 1]], .scalar 1, .arr [2, 1], 0, demoXo, [demoDraw 3, demoDraw 3]⟩] with
+    | .ok os => os.map (fun o => (o.rows.map Row.grp, o.pc, o.fc))
+    | .error _ => []) = [([126, 127], 7, 128), ([128, 128, 129], 10, 130)] := by
+  decide +kernel
+
+end history
+
+/-- **The dtype of the family labels.**  The code builds them as `numpy.arange(fc, fc + nfam, dtype = 'int64')`,
+    independently of the integer dtype in which the PARENTS keep their labels: the stored values are the numbers
+    `fc + i` of `family_labels` while `fc + nfam ≤ 2^63`.
+
+    FULL STATEMENT (false, see `family_labels_int64_counterexample`; a family counter of `2^63` is out of the range
+    the harness explores, ASSUMPTIONS): the same without the hypothesis. -/
+theorem family_labels_int64_exact_partial (fc n : Nat) (h : fc + n ≤ 2 ^ 63) :
+    labelsInDtype 64 true fc n = (Np.arange fc n).map (fun (v : Nat) => (v : Int)) :=
+  labelsInDtype_exact 64 true fc n (by simpa using h)
+
+theorem family_labels_int64_counterexample :
+    labelsInDtype 64 true (2 ^ 63 - 1) 2 ≠ (Np.arange (2 ^ 63 - 1) 2).map (fun (v : Nat) => (v : Int)) := by
+  decide +kernel
+
+/-- A variant that builds the labels in the dtype of the parents' labels (seeded change C01-e3) is wrong as soon as
+    the counter reaches the limit of that dtype: int8 parents, `family_counter = 126`, three crosses. -/
+theorem family_labels_parental_dtype_counterexample :
+    labelsInDtype 8 true 126 3 = [126, 127, -128] ∧
+    labelsInDtype 8 true 126 3 ≠ (Np.arange 126 3).map (fun (v : Nat) => (v : Int)) := by
+  decide +kernel
+
+example : (126 : Nat) + 3 ≤ 2 ^ 63 := by norm_num
 
 /-! ## 3. The Spec oracle -/
 
